@@ -89,7 +89,7 @@ def ns_state():
 def make_doc(seed, i):
     import random
     rng = random.Random(f"C16/{seed}/doc/{i}")
-    doc = gen.gen_document(rng, gen.Profile(max_depth=2, max_fanout=2, p_context=0.6, p_calibrated=0.6))
+    doc = gen.gen_document(rng, gen.Profile(max_depth=2, max_fanout=2, p_context=0.6, p_calibrated=0.6, legacy_float_spellings=True))
     packets = gen.gen_packets(rng, doc, 6)
     return doc, packets
 
@@ -154,7 +154,11 @@ def run(ctx):
         # ---- (a) namespace conventions ---------------------------------------------------------------------------------
         for style in STYLES:
             xml = render.render_doc(doc, ns_style=style, opts=render.Opts(explicit=None, rng=rng),
-                                    extra_ns={"xsi": "http://www.w3.org/2001/XMLSchema-instance"} if rng.random() < 0.5 else None)
+                                    extra_ns=rng.choice([None, {"xsi": "http://www.w3.org/2001/XMLSchema-instance"},
+                                                         {"xsi": "http://www.w3.org/2001/XMLSchema-instance", "": "http://www.w3.org/1999/xhtml"},
+                                                         {"": "urn:example:other", "xtce2": "http://www.omg.org/space/xtce"}]))
+            if style[0] == "prefix":
+                ctx.count("spelling.prefix_styles")
             fp = load_fp(xml, style, doc, packets)
             states.add(ns_state())
             ctx.count("evaluations")
